@@ -118,6 +118,19 @@ def t_restricted_keyword_key_newline(text, res):
     return False
 
 
+def t_comment_after_restricted_keyword(text, res):
+    """return / break / continue / throw followed on the same line by a
+    block comment (the printer re-emits comments with a line break after them)"""
+    for m in _words(text):
+        if m.group() in ('return', 'break', 'continue', 'throw'):
+            p = m.end()
+            while p < len(text) and refjs.is_ws(text[p]):
+                p += 1
+            if text[p:p + 2] == '/*':
+                return True
+    return False
+
+
 def t_keyword_property_then_newline_or_slash(text, res):
     """a reserved word used as a property name (after '.'), followed by a
     line terminator or by '/'"""
@@ -213,6 +226,53 @@ def t_number_then_identifier(text, res):
             if c == '\\' or refjs.is_id_start(c):
                 return True
     return False
+
+
+_LEFT_SPINE = ('left', 'node', 'identifier', 'predicate', 'value', 'expr')
+
+
+def tt_comment_after_restricted_keyword(tree):
+    """tree-level form: the operand of a return / throw / break / continue has
+    a comment somewhere on its leftmost spine, i.e. the printer emits that
+    comment (and a line break) directly after the keyword.  Comments that
+    contain a line terminator already caused a semicolon in the source."""
+    from vk import tree as vtree
+    for path, n in vtree.reflect_walk(tree):
+        k = vtree.kind_of(n)
+        if k in ('Return', 'Throw', 'Break', 'Continue'):
+            cur = getattr(n, 'expr', None) if k in ('Return', 'Throw') else getattr(n, 'identifier', None)
+            hops = 0
+            while cur is not None and vtree._is_node(cur) and hops < 200:
+                hops += 1
+                if getattr(cur, 'comments', None) is not None:
+                    return True
+                ck = vtree.kind_of(cur)
+                nxt = None
+                if ck in ('BinOp', 'Assign', 'Comma'):
+                    nxt = cur.left
+                elif ck in ('DotAccessor', 'BracketAccessor'):
+                    nxt = cur.node
+                elif ck == 'FunctionCall':
+                    nxt = cur.identifier
+                elif ck == 'Conditional':
+                    nxt = cur.predicate
+                elif ck == 'PostfixExpr':
+                    nxt = cur.value
+                cur = nxt
+    return False
+
+
+TREE_TRIGGERS = {'comment_after_restricted_keyword': tt_comment_after_restricted_keyword}
+
+
+def trigger_tree(name, tree):
+    f = TREE_TRIGGERS.get(name)
+    if f is None:
+        return False
+    try:
+        return bool(f(tree))
+    except Exception:
+        return True
 
 
 TRIGGERS = {n[2:]: f for n, f in list(globals().items()) if n.startswith('t_') and callable(f)}
